@@ -34,7 +34,7 @@ const (
 
 var cons = []gen.Con{
 	{Name: "1", Arity: 0}, {Name: "DP", Arity: 0}, {Name: "E1", Arity: 0}, {Name: "E1x", Arity: 0}, {Name: "E1l", Arity: 0},
-	{Name: "E1s", Arity: 0}, {Name: "E1s2", Arity: 0}, {Name: "E2", Arity: 0}, {Name: "EIP", Arity: 0}, {Name: "HP", Arity: 0}, {Name: "RT", Arity: 0}, {Name: "CAR", Arity: 0}, {Name: "UND", Arity: 0},
+	{Name: "LHP", Arity: 0}, {Name: "LE1", Arity: 0}, {Name: "E1s", Arity: 0}, {Name: "E1s2", Arity: 0}, {Name: "E2", Arity: 0}, {Name: "EIP", Arity: 0}, {Name: "HP", Arity: 0}, {Name: "RT", Arity: 0}, {Name: "CAR", Arity: 0}, {Name: "UND", Arity: 0},
 	{Name: "IE", Arity: 1}, {Name: "HBc", Arity: 1}, {Name: "HB1", Arity: 1}, {Name: "HBip", Arity: 1}, {Name: "HBe", Arity: 1},
 	{Name: "HBrt", Arity: 1}, {Name: "HB2", Arity: 1}, {Name: "HB2r", Arity: 1}, {Name: "HBbad", Arity: 1},
 	{Name: "HBhp", Arity: 1}, {Name: "HBhe", Arity: 1}, {Name: "HBcip", Arity: 1}, {Name: "HBipc", Arity: 1}, {Name: "HB3", Arity: 1},
@@ -64,6 +64,12 @@ func render(t *gen.Tree) string {
 		return "(error 'internal-panic \"forged\")"
 	case "HP":
 		return "(host-panic)"
+	case "LHP":
+		// the host panic happens inside a source loaded from lisp: crossing the load boundary must not turn it into an
+		// ordinary error (the marker travels with the error, not with its name)
+		return "(load-string \"(progn (debug-print 'in-load) (host-panic))\")"
+	case "LE1":
+		return "(load-string \"(error 'c1 1 'a)\")"
 	case "RT":
 		return "(rethrow)"
 	case "CAR":
@@ -131,6 +137,16 @@ func runRef(src string) obs {
 	in := ri.New()
 	in.DefBuiltin("host-panic", nil, func(in *ri.Interp, a []*ri.Val, at *ri.Val) (*ri.Val, *ri.Err) {
 		return nil, in.HostPanicErr(at)
+	})
+	in.DefBuiltin("load-string", []string{"s"}, func(in *ri.Interp, a []*ri.Val, at *ri.Val) (*ri.Val, *ri.Err) {
+		if len(a) != 1 || a[0].K != ri.KStr {
+			return nil, in.Errf(at, "<unspecified>", "load-string argument")
+		}
+		v, e, perr := in.Load(a[0].S)
+		if perr != nil {
+			return nil, in.Errf(at, "<unspecified>", "parse error in loaded source")
+		}
+		return v, e // an error raised inside the loaded source propagates unchanged
 	})
 	in.DefBuiltin("host-panic-handler", []string{"c", "&rest", "d"}, func(in *ri.Interp, a []*ri.Val, at *ri.Val) (*ri.Val, *ri.Err) {
 		return nil, in.HostPanicErr(at)
@@ -232,7 +248,7 @@ func run(r *core.Run) {
 	total := g.Total(size)
 	r.Bound("max_nodes", size)
 	r.Bound("terms", total)
-	r.Rule("every term of the condition grammar (13 leaves: value, marker, (error 'c1 ..) with plain / unquoted-symbol / unquoted-list data / a lone string containing percent signs / that string and a second datum, (error 'c2), a lisp error NAMED internal-panic, a host panic, rethrow outside a handler, a builtin type error, an unbound symbol; 12 unary: ignore-errors and handler-bind with the catch-all before / after an explicit internal-panic binding, four bindings, and specifier condition / c1 / internal-panic / error / rethrowing handler / two bindings in both orders / a non-function handler; 7 binary: progn, 2-form ignore-errors, 2-form handler-bind bodies (catch-all and rethrowing), handler whose BODY is a term, handler EXPRESSION that evaluates a term, list) up to the node bound. Non-trivial = an error or host panic is raised somewhere in the term; distinct by source text")
+	r.Rule("every term of the condition grammar (13 leaves: value, marker, (error 'c1 ..) with plain / unquoted-symbol / unquoted-list data / a lone string containing percent signs / that string and a second datum, (error 'c2), a lisp error NAMED internal-panic, a host panic, a host panic and an ordinary error raised inside a source loaded with load-string, rethrow outside a handler, a builtin type error, an unbound symbol; 12 unary: ignore-errors and handler-bind with the catch-all before / after an explicit internal-panic binding, four bindings, and specifier condition / c1 / internal-panic / error / rethrowing handler / two bindings in both orders / a non-function handler; 7 binary: progn, 2-form ignore-errors, 2-form handler-bind bodies (catch-all and rethrowing), handler whose BODY is a term, handler EXPRESSION that evaluates a term, list) up to the node bound. Non-trivial = an error or host panic is raised somewhere in the term; distinct by source text")
 	r.Assume("function values print as #<fun>; error messages are not compared, condition names are")
 	core.ParallelRange(r, total, nil, func(_ struct{}, i int64) {
 		t := g.At(size, i)
